@@ -15,6 +15,7 @@ from contracts import C03
 
 MOD = "bec2format.bf3file"
 MOD2 = "bec2format.bec2file"
+LEVEL = "fault_enumeration"
 ASSUMPTIONS = ["fault enumeration is bounded: the families below are complete only for the listed files"]
 
 
